@@ -1132,7 +1132,8 @@ def resolve_duplicate(tt, path_tree, c_type, last_trans_id, trans_id, name):
         _reparent_transform_children(tt, existing_file, new_file)
         tt.delete_contents(existing_file)
         tt.unversion_file(existing_file)
-        tt.cancel_creation(existing_file)
+        if existing_file in tt._new_contents:
+            tt.cancel_creation(existing_file)
     else:
         new_name = tt.final_name(existing_file) + ".moved"
         tt.adjust_path(new_name, final_parent, existing_file)
